@@ -1,39 +1,686 @@
-//! scratch replay of known C10 defects (will be replaced by the full harness)
-use wf_harness::{catch, silence_panics, toy::{ToyDigest, ToyHasher}};
-use winter_crypto::{BatchMerkleProof, MerkleTree};
-use winter_math::fields::f64::BaseElement;
-use winter_utils::SliceReader;
-type H = ToyHasher<BaseElement>;
-fn cl(p: &BatchMerkleProof<H>) -> BatchMerkleProof<H> { BatchMerkleProof { leaves: p.leaves.clone(), nodes: p.nodes.clone(), depth: p.depth } }
+//! C10 harness: Merkle tree openings (single paths, batch proofs, path <-> batch conversion, node codec).
+//!   c10 corr <seed> <n> [thorough]  -> lines "<case> => <impl result>" (ToyHasher; protocol of ocaml/c10_driver.ml)
+//!   c10 falsify <seed> <n>          -> JSON lines, one per property failure found against a naive recomputation
+use std::collections::BTreeMap;
+use std::io::Write as _;
+use std::panic::AssertUnwindSafe as AUS;
+
+use wf_harness::{catch, hex_bytes, jstr, prng::Rng, silence_panics, toy::{ToyDigest, ToyHasher}};
+use winter_crypto::{build_merkle_nodes, hashers::*, BatchMerkleProof, Hasher, MerkleTree, MerkleTreeError};
+use winter_math::fields::f64;
+use winter_utils::{ByteReader, Serializable, SliceReader};
+
+type Toy = ToyHasher<f64::BaseElement>;
+type TD = ToyDigest;
+type PanicOr<T> = Result<T, String>;
+type MRes<T> = PanicOr<Result<T, MerkleTreeError>>;
+
+// ================================================================================================ formatting
+fn l_<T>(v: &[T], f: impl Fn(&T) -> String) -> String {
+    if v.is_empty() { "-".into() } else { v.iter().map(f).collect::<Vec<_>>().join(",") }
+}
+fn ll_<T>(v: &[Vec<T>], f: impl Fn(&T) -> String + Copy) -> String {
+    if v.is_empty() { "~".into() } else { v.iter().map(|g| l_(g, f)).collect::<Vec<_>>().join(";") }
+}
+fn hd(d: &TD) -> String { format!("{:x}", d.to_u64()) }
+fn ld(v: &[TD]) -> String { l_(v, hd) }
+fn lld(v: &[Vec<TD>]) -> String { ll_(v, hd) }
+fn li(v: &[usize]) -> String { l_(v, |x| format!("{:x}", x)) }
+fn gd<D: Serializable>(d: &D) -> String { hex_bytes(&d.to_bytes()) }
+fn er(e: &MerkleTreeError) -> String {
+    use MerkleTreeError::*;
+    match e {
+        TooFewLeaves(a, b) => format!("err:TooFewLeaves({:x},{:x})", a, b),
+        NumberOfLeavesNotPowerOfTwo(a) => format!("err:NumberOfLeavesNotPowerOfTwo({:x})", a),
+        LeafIndexOutOfBounds(a, b) => format!("err:LeafIndexOutOfBounds({:x},{:x})", a, b),
+        DuplicateLeafIndex => "err:DuplicateLeafIndex".into(),
+        TooFewLeafIndexes => "err:TooFewLeafIndexes".into(),
+        TooManyLeafIndexes(a, b) => format!("err:TooManyLeafIndexes({:x},{:x})", a, b),
+        InvalidProof => "err:InvalidProof".into(),
+    }
+}
+fn show<T>(r: &MRes<T>, f: impl FnOnce(&T) -> String) -> String {
+    match r { Err(_) => "panic".into(), Ok(Err(e)) => er(e), Ok(Ok(v)) => f(v) }
+}
+
+// ================================================================================================ openings + mutations
+struct Opening<H: Hasher> { root: H::Digest, n: usize, idx: Vec<usize>, leaves: Vec<H::Digest>, nodes: Vec<Vec<H::Digest>>, depth: u8 }
+
+impl<H: Hasher> Opening<H> {
+    fn dup(&self) -> Self {
+        Opening { root: self.root, n: self.n, idx: self.idx.clone(), leaves: self.leaves.clone(), nodes: self.nodes.clone(), depth: self.depth }
+    }
+    fn proof(&self) -> BatchMerkleProof<H> {
+        BatchMerkleProof { leaves: self.leaves.clone(), nodes: self.nodes.clone(), depth: self.depth }
+    }
+    fn of(root: H::Digest, n: usize, idx: &[usize], p: &BatchMerkleProof<H>) -> Self {
+        Opening { root, n, idx: idx.to_vec(), leaves: p.leaves.clone(), nodes: p.nodes.clone(), depth: p.depth }
+    }
+    fn get_root(&self) -> MRes<H::Digest> { let p = self.proof(); catch(AUS(|| p.get_root(&self.idx))) }
+    fn verify_batch(&self) -> MRes<()> { let p = self.proof(); catch(AUS(|| MerkleTree::<H>::verify_batch(&self.root, &self.idx, &p))) }
+    fn into_paths(&self) -> MRes<Vec<Vec<H::Digest>>> { let p = self.proof(); catch(AUS(|| p.into_paths(&self.idx))) }
+    fn describe(&self) -> String {
+        format!("idx={} proof.leaves={} proof.nodes={} depth={}", li(&self.idx), l_(&self.leaves, gd), ll_(&self.nodes, gd), self.depth)
+    }
+}
+
+#[derive(Clone, Debug, PartialEq)]
+enum Mut {
+    Leaf(usize), Node(usize, usize), DelNode(usize, usize), AddNode(usize), DelVec(usize), AddEmptyVec, AddVec,
+    LeavesShort, LeavesExt, Depth(u8), IdxTo(usize, usize), Swap(usize, usize), DropIdx(usize), AppendIdx(usize), Reverse,
+}
+
+fn fresh<H: Hasher>(r: &mut Rng, avoid: &H::Digest) -> H::Digest {
+    loop { let d = H::hash(&r.bytes(9)); if d != *avoid { return d; } }
+}
+
+/// All single-step mutations of a batch opening (every one changes the opening).
+fn batch_muts<H: Hasher>(o: &Opening<H>, r: &mut Rng) -> Vec<Mut> {
+    let mut v = Vec::new();
+    let k = o.idx.len();
+    for i in 0..o.leaves.len() { v.push(Mut::Leaf(i)); }
+    for (i, g) in o.nodes.iter().enumerate() {
+        for j in 0..g.len() { v.push(Mut::Node(i, j)); v.push(Mut::DelNode(i, j)); }
+        v.push(Mut::AddNode(i));
+        v.push(Mut::DelVec(i));
+    }
+    v.extend([Mut::AddEmptyVec, Mut::AddVec, Mut::LeavesShort, Mut::LeavesExt]);
+    let mut ds: Vec<u8> = (0..=o.depth.saturating_add(2)).collect();
+    for x in [63u8, 64, 65, 128, 255] { if !ds.contains(&x) { ds.push(x); } }
+    v.extend(ds.into_iter().filter(|&x| x != o.depth).map(Mut::Depth));
+    let mut queried = vec![false; o.n];
+    for &i in &o.idx { if i < o.n { queried[i] = true; } }
+    let unq: Vec<usize> = (0..o.n).filter(|&x| !queried[x]).collect();
+    for p in 0..k {
+        if !unq.is_empty() { v.push(Mut::IdxTo(p, *r.pick(&unq))); }
+        if k >= 2 { let mut q = r.below(k as u64 - 1) as usize; if q >= p { q += 1; } v.push(Mut::IdxTo(p, o.idx[q])); }
+        v.push(Mut::IdxTo(p, o.n));
+        v.push(Mut::IdxTo(p, usize::MAX));
+        v.push(Mut::DropIdx(p));
+    }
+    if k >= 2 {
+        let i = r.below(k as u64 - 1) as usize;
+        v.push(Mut::Swap(i, i + 1));
+        let a = r.below(k as u64) as usize;
+        let mut b = r.below(k as u64 - 1) as usize; if b >= a { b += 1; }
+        if !(a.min(b) == i && a.max(b) == i + 1) { v.push(Mut::Swap(a, b)); }
+        if k >= 3 { v.push(Mut::Reverse); }
+    }
+    v.push(Mut::AppendIdx(if unq.is_empty() { o.n } else { *r.pick(&unq) }));
+    v
+}
+
+fn apply<H: Hasher>(o: &Opening<H>, m: &Mut, r: &mut Rng) -> Opening<H> {
+    let mut q = o.dup();
+    let zero = H::Digest::default();
+    match *m {
+        Mut::Leaf(k) => q.leaves[k] = fresh::<H>(r, &o.leaves[k]),
+        Mut::Node(i, j) => q.nodes[i][j] = fresh::<H>(r, &o.nodes[i][j]),
+        Mut::DelNode(i, j) => { q.nodes[i].remove(j); }
+        Mut::AddNode(i) => q.nodes[i].push(fresh::<H>(r, &zero)),
+        Mut::DelVec(i) => { q.nodes.remove(i); }
+        Mut::AddEmptyVec => q.nodes.push(vec![]),
+        Mut::AddVec => q.nodes.push(vec![fresh::<H>(r, &zero)]),
+        Mut::LeavesShort => { q.leaves.pop(); }
+        Mut::LeavesExt => q.leaves.push(fresh::<H>(r, &zero)),
+        Mut::Depth(d) => q.depth = d,
+        Mut::IdxTo(k, v) => q.idx[k] = v,
+        Mut::Swap(i, j) => q.idx.swap(i, j),
+        Mut::DropIdx(k) => { q.idx.remove(k); }
+        Mut::AppendIdx(v) => q.idx.push(v),
+        Mut::Reverse => q.idx.reverse(),
+    }
+    q
+}
+
+#[derive(Clone, Debug)]
+enum SMut { Pos(usize), Index(usize), Trunc(usize), Extend(usize), Hostile(usize), Root }
+
+fn single_muts(n: usize, i: usize, len: usize, r: &mut Rng) -> Vec<SMut> {
+    let mut v: Vec<SMut> = (0..len).map(SMut::Pos).collect();
+    if n <= 8 {
+        v.extend((0..n).filter(|&x| x != i).map(SMut::Index));
+    } else {
+        let mut c = vec![i ^ 1, i ^ 2, i ^ (n >> 1), (i + 1) % n, r.below(n as u64) as usize];
+        c.sort(); c.dedup();
+        v.extend(c.into_iter().filter(|&x| x != i).map(SMut::Index));
+    }
+    v.extend([SMut::Index(i + n), SMut::Index(i + 2 * n), SMut::Index(usize::MAX)]);
+    v.extend((0..len).map(SMut::Trunc));
+    v.extend([SMut::Extend(1), SMut::Extend(2), SMut::Hostile(64), SMut::Hostile(65), SMut::Hostile(66), SMut::Hostile(70), SMut::Root]);
+    v
+}
+
+fn apply_single<H: Hasher>(root: H::Digest, i: usize, path: &[H::Digest], m: &SMut, r: &mut Rng) -> (H::Digest, usize, Vec<H::Digest>) {
+    let mut p = path.to_vec();
+    let (mut root, mut i) = (root, i);
+    let zero = H::Digest::default();
+    match *m {
+        SMut::Pos(j) => p[j] = fresh::<H>(r, &path[j]),
+        SMut::Index(v) => i = v,
+        SMut::Trunc(l) => p.truncate(l),
+        SMut::Extend(e) => for _ in 0..e { p.push(fresh::<H>(r, &zero)); },
+        SMut::Hostile(l) => while p.len() < l { p.push(fresh::<H>(r, &zero)); },
+        SMut::Root => root = fresh::<H>(r, &root),
+    }
+    (root, i, p)
+}
+
+// ================================================================================================ random index lists
+fn shuffle<T>(r: &mut Rng, v: &mut [T]) {
+    for i in (1..v.len()).rev() { let j = r.below(i as u64 + 1) as usize; v.swap(i, j); }
+}
+fn subset(r: &mut Rng, n: usize, k: usize) -> Vec<usize> {
+    let mut v: Vec<usize> = (0..n).collect();
+    shuffle(r, &mut v);
+    v.truncate(k);
+    v
+}
+fn perms(v: &[usize]) -> Vec<Vec<usize>> {
+    if v.len() <= 1 { return vec![v.to_vec()]; }
+    let mut out = Vec::new();
+    for i in 0..v.len() {
+        let mut rest = v.to_vec();
+        let x = rest.remove(i);
+        for mut p in perms(&rest) { p.insert(0, x); out.push(p); }
+    }
+    out
+}
+/// Structured index list for a tree with n leaves: at most 255 distinct in-range positions.
+fn gen_list(r: &mut Rng, n: usize) -> Vec<usize> {
+    let cap = n.min(255);
+    let mut v: Vec<usize> = match r.below(16) {
+        0..=7 => { let k = if r.chance(2, 3) { 1 + r.below(cap.min(8) as u64) } else { 1 + r.below(cap as u64) } as usize; subset(r, n, k) }
+        8 | 9 => { let m = 1 + r.below((n / 2).min(6) as u64) as usize; subset(r, n / 2, m).into_iter().flat_map(|p| [2 * p, 2 * p + 1]).collect() }
+        10 => (0..n).step_by(2).collect(),
+        11 => (1..n).step_by(2).collect(),
+        12 | 13 => { let s = r.below(n as u64) as usize; let l = 1 + r.below(cap.min(n - s) as u64) as usize; (s..s + l).collect() }
+        14 => { let mut v: Vec<usize> = (0..n).collect(); if n > cap { v.remove(r.below(n as u64) as usize); } v }
+        _ => { let k = cap - r.below(cap.min(4) as u64) as usize; subset(r, n, k) }
+    };
+    if r.chance(3, 4) { shuffle(r, &mut v); } else { v.sort(); }
+    v
+}
+
+// ================================================================================================ corr
+struct Out { w: std::io::BufWriter<std::io::Stdout>, n: usize }
+impl Out {
+    fn put(&mut self, case: &str, res: &str) { writeln!(self.w, "{} => {}", case, res).unwrap(); self.n += 1; }
+}
+
+fn rand_leaves(r: &mut Rng, n: usize) -> Vec<TD> { (0..n).map(|_| TD::from_u64(r.next_u64())).collect() }
+
+fn c_new(o: &mut Out, leaves: &[TD]) {
+    let r = catch(AUS(|| MerkleTree::<Toy>::new(leaves.to_vec())));
+    let s = show(&r, |t| match catch(AUS(|| build_merkle_nodes::<Toy>(leaves))) {
+        Ok(nd) if nd.len() > 1 && nd[1] == *t.root() => format!("ok {} {}", hd(t.root()), ld(&nd)),
+        _ => "ok-but-root-is-not-nodes[1]".into(),
+    });
+    o.put(&format!("new {}", ld(leaves)), &s);
+}
+fn c_build(o: &mut Out, leaves: &[TD]) {
+    let s = match catch(AUS(|| build_merkle_nodes::<Toy>(leaves))) { Ok(nd) => format!("ok {}", ld(&nd)), Err(_) => "panic".into() };
+    o.put(&format!("build_nodes {}", ld(leaves)), &s);
+}
+fn c_prove(o: &mut Out, t: &MerkleTree<Toy>, ls: &str, i: usize) -> Option<Vec<TD>> {
+    let r = catch(AUS(|| t.prove(i)));
+    o.put(&format!("prove {} {:x}", ls, i), &show(&r, |p| format!("ok {}", ld(p))));
+    r.ok().and_then(|x| x.ok())
+}
+fn c_verify(o: &mut Out, root: TD, i: usize, path: &[TD]) {
+    let r = catch(AUS(|| MerkleTree::<Toy>::verify(root, i, path)));
+    o.put(&format!("verify {} {:x} {}", hd(&root), i, ld(path)), &show(&r, |_| "ok".into()));
+}
+fn c_prove_batch(o: &mut Out, t: &MerkleTree<Toy>, ls: &str, idx: &[usize]) -> Option<Opening<Toy>> {
+    let r = catch(AUS(|| t.prove_batch(idx)));
+    let s = show(&r, |p| {
+        let b = match catch(AUS(|| p.serialize_nodes())) { Ok(b) => hex_bytes(&b), Err(_) => "panic".into() };
+        format!("ok {} {} {:x} {}", ld(&p.leaves), lld(&p.nodes), p.depth, b)
+    });
+    o.put(&format!("prove_batch {} {}", ls, li(idx)), &s);
+    r.ok().and_then(|x| x.ok()).map(|p| Opening::of(*t.root(), t.leaves().len(), idx, &p))
+}
+fn bp_case(q: &Opening<Toy>) -> String { format!("{} {} {:x} {}", ld(&q.leaves), lld(&q.nodes), q.depth, li(&q.idx)) }
+fn c_get_root(o: &mut Out, q: &Opening<Toy>) {
+    o.put(&format!("get_root {}", bp_case(q)), &show(&q.get_root(), |x| format!("ok {}", hd(x))));
+}
+fn c_verify_batch(o: &mut Out, q: &Opening<Toy>) {
+    o.put(&format!("verify_batch {} {}", hd(&q.root), bp_case(q)), &show(&q.verify_batch(), |_| "ok".into()));
+}
+fn c_into_paths(o: &mut Out, q: &Opening<Toy>) -> Option<Vec<Vec<TD>>> {
+    let r = q.into_paths();
+    o.put(&format!("into_paths {}", bp_case(q)), &show(&r, |ps| format!("ok {}", lld(ps))));
+    r.ok().and_then(|x| x.ok())
+}
+fn c_from_paths(o: &mut Out, paths: &[Vec<TD>], idx: &[usize]) {
+    let s = match catch(AUS(|| BatchMerkleProof::<Toy>::from_paths(paths, idx))) {
+        Ok(p) => format!("ok {} {} {:x}", ld(&p.leaves), lld(&p.nodes), p.depth),
+        Err(_) => "panic".into(),
+    };
+    o.put(&format!("from_paths {} {}", lld(paths), li(idx)), &s);
+}
+fn c_ser(o: &mut Out, nodes: &[Vec<TD>]) {
+    let p = BatchMerkleProof::<Toy> { leaves: vec![], nodes: nodes.to_vec(), depth: 1 };
+    let s = match catch(AUS(|| p.serialize_nodes())) { Ok(b) => format!("ok {}", hex_bytes(&b)), Err(_) => "panic".into() };
+    o.put(&format!("ser {}", lld(nodes)), &s);
+}
+fn c_deser(o: &mut Out, bytes: &[u8], leaves: &[TD], depth: u8) {
+    let r = catch(AUS(|| {
+        let mut rd = SliceReader::new(bytes);
+        BatchMerkleProof::<Toy>::deserialize(&mut rd, leaves.to_vec(), depth).map(|p| {
+            let mut unread = 0usize;
+            while rd.read_u8().is_ok() { unread += 1; }
+            (p, unread)
+        })
+    }));
+    let s = match r { Err(_) => "panic".into(), Ok(Err(_)) => "err".into(), Ok(Ok((p, u))) => format!("ok {} {}", lld(&p.nodes), u) };
+    o.put(&format!("deser {} {} {:x}", hex_bytes(bytes), ld(leaves), depth), &s);
+}
+
+/// The five operations on one index list; `ops` selects a subset (bit0 prove_batch .. bit4 from_paths).
+fn five(o: &mut Out, t: &MerkleTree<Toy>, ls: &str, idx: &[usize], ops: u8) -> Option<(Opening<Toy>, Vec<Vec<TD>>)> {
+    let q = if ops & 1 != 0 { c_prove_batch(o, t, ls, idx)? } else { Opening::of(*t.root(), t.leaves().len(), idx, &t.prove_batch(idx).ok()?) };
+    if ops & 2 != 0 { c_get_root(o, &q); }
+    if ops & 4 != 0 { c_verify_batch(o, &q); }
+    let paths = if ops & 8 != 0 { c_into_paths(o, &q)? } else { q.into_paths().ok()?.ok()? };
+    if ops & 16 != 0 { c_from_paths(o, &paths, idx); }
+    Some((q, paths))
+}
+
+fn mutate_batch(o: &mut Out, r: &mut Rng, q: &Opening<Toy>, sample: Option<usize>, all_ops: bool, rot: &mut usize) {
+    let mut ms = batch_muts(q, r);
+    if let Some(k) = sample { if ms.len() > k { shuffle(r, &mut ms); ms.truncate(k); } }
+    for m in &ms {
+        let x = apply(q, m, r);
+        let sel = if all_ops { 7 } else { *rot += 1; 1u8 << (*rot % 3) };
+        if sel & 1 != 0 { c_get_root(o, &x); }
+        if sel & 2 != 0 { c_into_paths(o, &x); }
+        if sel & 4 != 0 { c_verify_batch(o, &x); }
+    }
+}
+
+fn mutate_single(o: &mut Out, r: &mut Rng, root: TD, n: usize, i: usize, path: &[TD]) {
+    for m in single_muts(n, i, path.len(), r) {
+        let (rt, i2, p2) = apply_single::<Toy>(root, i, path, &m, r);
+        c_verify(o, rt, i2, &p2);
+    }
+}
+
+fn mutate_from_paths(o: &mut Out, r: &mut Rng, paths: &[Vec<TD>], idx: &[usize]) {
+    let k = paths.len();
+    let p = r.below(k as u64) as usize;
+    let mut x = paths.to_vec(); x[p].pop(); c_from_paths(o, &x, idx);
+    let mut x = paths.to_vec(); x[p].push(TD::from_u64(r.next_u64())); c_from_paths(o, &x, idx);
+    for l in 0..3 { let x: Vec<Vec<TD>> = paths.iter().map(|q| q[..l.min(q.len())].to_vec()).collect(); c_from_paths(o, &x, idx); }
+    c_from_paths(o, &paths[..k - 1], idx);
+    c_from_paths(o, paths, &idx[..k - 1]);
+    let mut i2 = idx.to_vec(); i2.push(r.below(8) as usize); c_from_paths(o, paths, &i2);
+    if k >= 2 {
+        let mut i2 = idx.to_vec(); i2[1] = i2[0]; c_from_paths(o, paths, &i2);
+        let mut i2 = idx.to_vec(); i2.swap(0, k - 1); c_from_paths(o, paths, &i2);
+        let mut i2 = idx.to_vec(); i2.reverse(); c_from_paths(o, paths, &i2);
+        let mut i2 = idx.to_vec(); shuffle(r, &mut i2); c_from_paths(o, paths, &i2);
+    }
+    let mut i2 = idx.to_vec(); i2[p] = usize::MAX; c_from_paths(o, paths, &i2);
+    let mut i2 = idx.to_vec(); i2[p] ^= 1; c_from_paths(o, paths, &i2);
+}
+
+fn corr(seed: u64, n: usize, thorough: bool) {
+    let r = &mut Rng::new(seed);
+    let o = &mut Out { w: std::io::BufWriter::with_capacity(1 << 20, std::io::stdout()), n: 0 };
+    let mut sizes = Vec::new();
+    let mark = |o: &Out, sizes: &mut Vec<usize>| { let prev: usize = sizes.iter().sum(); sizes.push(o.n - prev); };
+
+    // ---------------------------------------------------------------- A: boundary
+    for k in [0usize, 1, 2, 3, 4, 5, 6, 7, 8, 9, 16] {
+        let l = rand_leaves(r, k);
+        c_new(o, &l);
+        c_build(o, &l);
+    }
+    let mut singles: Vec<(TD, usize, usize, Vec<TD>)> = Vec::new(); // (root, n, index, honest path)
+    for d in 1..=8u32 {
+        let nl = 1usize << d;
+        for variant in 0..3 {
+            let leaves: Vec<TD> = match variant { 0 => rand_leaves(r, nl), 1 => vec![TD::from_u64(r.next_u64()); nl], _ => (0..nl as u64).map(TD::from_u64).collect() };
+            c_new(o, &leaves);
+            c_build(o, &leaves);
+            let Ok(t) = MerkleTree::<Toy>::new(leaves.clone()) else { continue };
+            let ls = ld(&leaves);
+            let mut is: Vec<usize> = if nl <= 16 { (0..nl + 2).collect() } else { vec![0, 1, nl - 2, nl - 1, nl, nl + 1, r.below(nl as u64) as usize, r.below(nl as u64) as usize] };
+            is.extend([usize::MAX, 1 << 63, nl + r.below(1 << 40) as usize]);
+            for i in is {
+                if let Some(p) = c_prove(o, &t, &ls, i) {
+                    c_verify(o, *t.root(), i, &p);
+                    if variant == 0 && (nl <= 8 || r.chance(1, 3)) { singles.push((*t.root(), nl, i, p)); }
+                }
+            }
+        }
+    }
+    mark(o, &mut sizes);
+
+    // ---------------------------------------------------------------- B: exhaustive batch openings
+    let mut honest: Vec<(Opening<Toy>, Vec<Vec<TD>>)> = Vec::new(); // n <= 8: every subset; 16: sample
+    let mut honest_big: Vec<(Opening<Toy>, Vec<Vec<TD>>)> = Vec::new();
+    for nl in [2usize, 4, 8, 16] {
+        if nl == 16 && !thorough { continue; }
+        let leaves = rand_leaves(r, nl);
+        let t = MerkleTree::<Toy>::new(leaves.clone()).unwrap();
+        let ls = ld(&leaves);
+        for mask in 1u32..(1 << nl) {
+            let sorted: Vec<usize> = (0..nl).filter(|i| mask >> i & 1 == 1).collect();
+            let lists: Vec<Vec<usize>> = if nl <= 4 {
+                let mut p = perms(&sorted); p.retain(|x| *x != sorted); p.insert(0, sorted.clone()); p
+            } else if sorted.len() >= 2 {
+                let mut p = sorted.clone();
+                while p == sorted { shuffle(r, &mut p); }
+                vec![sorted.clone(), p]
+            } else { vec![sorted.clone()] };
+            let keep = r.below(lists.len() as u64) as usize;
+            for (j, idx) in lists.iter().enumerate() {
+                let ops = if nl < 16 { 31 } else if j == 0 { 1 | 2 | 8 | 16 } else { 1 | 2 | 8 };
+                if let Some(h) = five(o, &t, &ls, idx, ops) {
+                    if nl <= 8 { if thorough || j == keep { honest.push(h); } } else if j == keep && r.chance(1, 200) { honest_big.push(h); }
+                }
+            }
+        }
+    }
+    mark(o, &mut sizes);
+
+    // ---------------------------------------------------------------- C: random batch openings on larger trees
+    let n_c = n.min(3000);
+    for (ti, nl) in [16usize, 32, 64, 128, 256].into_iter().enumerate() {
+        let leaves = rand_leaves(r, nl);
+        let t = MerkleTree::<Toy>::new(leaves.clone()).unwrap();
+        let ls = ld(&leaves);
+        let per = (n_c / 5).max(8);
+        for j in 0..per {
+            let idx = gen_list(r, nl);
+            if let Some(h) = five(o, &t, &ls, &idx, 31) { if j % 10 == ti % 10 || idx.len() == 255 && r.chance(1, 4) { honest_big.push(h); } }
+        }
+        // malformed index lists: count limits first, then range, then duplicates
+        let base = Opening::of(*t.root(), nl, &[0, 1], &t.prove_batch(&[0, 1]).unwrap());
+        let mut bad: Vec<Vec<usize>> = vec![
+            vec![], (0..256).map(|i| i % nl).collect(), (0..300).map(|i| i % nl).collect(), (0..256).map(|i| i + nl).collect(),
+            vec![0, 0], vec![3, 1, 3], vec![nl - 1, 2, 2, 5, nl - 1], vec![nl], vec![nl + 1], vec![usize::MAX], vec![1 << 63],
+            vec![0, nl], vec![nl, 0], vec![nl, nl], vec![0, 0, nl], vec![0, nl, 0], vec![1, usize::MAX, 1], vec![usize::MAX, usize::MAX - 1],
+            (0..255).map(|i| i % nl).collect(),
+        ];
+        let mut v = subset(r, nl, 5.min(nl)); let dup = v[r.below(v.len() as u64) as usize]; v.push(dup); shuffle(r, &mut v); bad.push(v);
+        for idx in &bad {
+            c_prove_batch(o, &t, &ls, idx);
+            let mut q = base.dup(); q.idx = idx.clone();
+            c_get_root(o, &q);
+            c_into_paths(o, &q);
+            c_verify_batch(o, &q);
+        }
+    }
+    mark(o, &mut sizes);
+
+    // ---------------------------------------------------------------- D: mutations
+    for (root, nl, i, p) in &singles { mutate_single(o, r, *root, *nl, *i, p); }
+    let mut rot = 0usize;
+    for (q, paths) in &honest {
+        mutate_batch(o, r, q, None, thorough || q.n <= 4, &mut rot);
+        if q.n <= 4 || r.chance(1, 8) { mutate_from_paths(o, r, paths, &q.idx); }
+    }
+    let cap_big = if thorough { 300 } else { 40 };
+    if honest_big.len() > cap_big { shuffle(r, &mut honest_big); honest_big.truncate(cap_big); }
+    for (q, paths) in &honest_big {
+        mutate_batch(o, r, q, Some(if thorough { 60 } else { 36 }), thorough, &mut rot);
+        if q.idx.len() <= 40 { mutate_from_paths(o, r, paths, &q.idx); }
+    }
+    // shapes of from_paths that do not derive from an honest opening
+    c_from_paths(o, &[], &[]);
+    c_from_paths(o, &[], &[0]);
+    let leaves = rand_leaves(r, 256);
+    let t = MerkleTree::<Toy>::new(leaves).unwrap();
+    let all: Vec<Vec<TD>> = (0..256).map(|i| t.prove(i).unwrap()).collect();
+    let ids: Vec<usize> = (0..256).collect();
+    c_from_paths(o, &all, &ids);
+    c_from_paths(o, &all[..255], &ids[..255]);
+    c_from_paths(o, &all[1..], &ids[1..]);
+    let rep: Vec<Vec<TD>> = (0..256).map(|_| all[7].clone()).collect();
+    c_from_paths(o, &rep, &vec![7; 256]);
+    c_from_paths(o, &rep[..3], &[7, 7, 7]);
+    for l in [256usize, 257, 258, 259, 513] {
+        let long: Vec<TD> = rand_leaves(r, l);
+        c_from_paths(o, &[long.clone()], &[r.below(4) as usize]);
+        c_from_paths(o, &[long.clone(), long.clone()], &[2, 3]);
+        c_from_paths(o, &[long.clone(), long], &[1, 2]);
+    }
+    mark(o, &mut sizes);
+
+    // ---------------------------------------------------------------- E: node codec
+    let mut pool: Vec<&Opening<Toy>> = honest.iter().map(|h| &h.0).filter(|q| q.n >= 4).collect();
+    shuffle(r, &mut pool);
+    pool.truncate(if thorough { 200 } else { 40 });
+    pool.extend(honest_big.iter().map(|h| &h.0).take(if thorough { 60 } else { 12 }));
+    for (j, q) in pool.iter().enumerate() {
+        let bytes = q.proof().serialize_nodes();
+        c_ser(o, &q.nodes);
+        c_deser(o, &bytes, &q.leaves, q.depth);
+        let mut g = bytes.clone(); let extra = 1 + r.below(9) as usize; g.extend(r.bytes(extra)); c_deser(o, &g, &q.leaves, q.depth);
+        for delta in [1u8, 255, 128] {
+            let mut g = bytes.clone(); g[0] = g[0].wrapping_add(delta); c_deser(o, &g, &q.leaves, q.depth);
+            if g.len() > 1 { let mut g = bytes.clone(); g[1] = g[1].wrapping_add(delta); c_deser(o, &g, &q.leaves, q.depth); }
+        }
+        let mut g = bytes.clone(); let p = r.below(g.len() as u64) as usize; g[p] ^= 1 << r.below(8); c_deser(o, &g, &q.leaves, q.depth);
+        c_deser(o, &bytes, &q.leaves, 0);
+        c_deser(o, &bytes, &[], q.depth);
+        c_deser(o, &bytes, &q.leaves, [1u8, 63, 64, 255][j % 4]);
+        if j < 4 || (thorough && j < 12) { for l in 0..bytes.len() { c_deser(o, &bytes[..l], &q.leaves, q.depth); } }
+        if j < 2 {
+            c_deser(o, &bytes, &rand_leaves(r, 255), q.depth);
+            c_deser(o, &bytes, &rand_leaves(r, 256), q.depth);
+            c_deser(o, &bytes, &rand_leaves(r, 257), q.depth);
+        }
+    }
+    for _ in 0..(n / 10).clamp(10, 200) {
+        let l = r.below(40) as usize;
+        let mut g = r.bytes(l);
+        if l > 0 && r.chance(2, 3) { g[0] = r.below(4) as u8; for x in g.iter_mut().skip(1) { if r.chance(1, 3) { *x = r.below(3) as u8; } } }
+        let (nl, dp) = (1 + r.below(3) as usize, 1 + r.below(5) as u8);
+        c_deser(o, &g, &rand_leaves(r, nl), dp);
+    }
+    c_deser(o, &[], &rand_leaves(r, 1), 1);
+    c_deser(o, &[0], &rand_leaves(r, 1), 1);
+    c_deser(o, &[255], &rand_leaves(r, 1), 1);
+    let mut g = vec![255u8]; g.extend(vec![0u8; 255]); c_deser(o, &g, &rand_leaves(r, 2), 3); g.push(7); c_deser(o, &g, &rand_leaves(r, 2), 3);
+    let mut g = vec![1u8, 255]; g.extend(r.bytes(255 * 8)); c_deser(o, &g, &rand_leaves(r, 2), 3); g.pop(); c_deser(o, &g, &rand_leaves(r, 2), 3);
+    c_ser(o, &[]);
+    c_ser(o, &[vec![]]);
+    c_ser(o, &vec![vec![]; 255]);
+    c_ser(o, &vec![vec![]; 256]);
+    c_ser(o, &vec![vec![]; 257]);
+    c_ser(o, &[rand_leaves(r, 255)]);
+    c_ser(o, &[rand_leaves(r, 256)]);
+    c_ser(o, &[rand_leaves(r, 2), rand_leaves(r, 256), vec![]]);
+    let mut v: Vec<Vec<TD>> = vec![vec![]; 255]; v.push(rand_leaves(r, 1)); c_ser(o, &v);
+    mark(o, &mut sizes);
+    o.w.flush().unwrap();
+    eprintln!("stream sizes: A={} B={} C={} D={} E={}", sizes[0], sizes[1], sizes[2], sizes[3], sizes[4]);
+}
+
+// ================================================================================================ falsifier
+struct Fz { evals: usize, fails: usize, suppressed: usize, seen: BTreeMap<String, usize> }
+impl Fz {
+    fn fail(&mut self, what: &str, hasher: &str, input: impl FnOnce() -> String, expected: &str, actual: String) {
+        let c = self.seen.entry(format!("{}/{}", what, hasher)).or_insert(0);
+        *c += 1;
+        if *c > 5 { self.suppressed += 1; return; }
+        self.fails += 1;
+        println!("{{\"what\":{},\"hasher\":{},\"input\":{},\"expected\":{},\"actual\":{}}}", jstr(what), jstr(hasher), jstr(&input()), jstr(expected), jstr(&actual));
+    }
+}
+
+/// Oracle: the root is the pairwise merge of all leaves, level by level.
+fn naive_root<H: Hasher>(leaves: &[H::Digest]) -> H::Digest {
+    let mut level = leaves.to_vec();
+    while level.len() > 1 { level = level.chunks(2).map(|c| H::merge(&[c[0], c[1]])).collect(); }
+    level[0]
+}
+/// Oracle: fold a path (leaf first) upwards; the position's bits say on which side the running value goes.
+fn fold_path<H: Hasher>(mut i: usize, path: &[H::Digest]) -> Option<H::Digest> {
+    if path.len() < 2 { return None; }
+    let mut cur = path[0];
+    for s in &path[1..] { cur = if i & 1 == 0 { H::merge(&[cur, *s]) } else { H::merge(&[*s, cur]) }; i >>= 1; }
+    if i == 0 { Some(cur) } else { None }
+}
+fn short<T: std::fmt::Debug>(r: &MRes<T>) -> String {
+    match r { Err(m) => format!("panic: {}", m), Ok(Err(e)) => er(e), Ok(Ok(v)) => { let mut s = format!("Ok({:?})", v); s.truncate(200); s } }
+}
+
+fn falsify_hasher<H: Hasher>(name: &str, real: bool, budget: usize, r: &mut Rng, fz: &mut Fz) {
+    let end = fz.evals + budget;
+    while fz.evals < end {
+        let d = 1 + r.below(8) as usize;
+        let n = 1usize << d;
+        let leaves: Vec<H::Digest> = (0..n).map(|_| H::hash(&r.bytes(16))).collect();
+        let lv = || format!("leaves={}", l_(&leaves, gd));
+        let tree = match catch(AUS(|| MerkleTree::<H>::new(leaves.clone()))) {
+            Ok(Ok(t)) => t,
+            x => { fz.evals += 1; fz.fail("new", name, lv, "Ok(tree)", short(&x.map(|y| y.map(|_| ())))); continue; }
+        };
+        let root = *tree.root();
+        let want = naive_root::<H>(&leaves);
+        fz.evals += 1;
+        if root != want { fz.fail("root", name, lv, &gd(&want), gd(&root)); }
+        let rounds = [6, 6, 5, 4, 3, 2, 2, 1][d - 1];
+        for _ in 0..rounds {
+            // 2. single openings
+            let i = r.below(n as u64) as usize;
+            fz.evals += 1;
+            let path = match catch(AUS(|| tree.prove(i))) {
+                Ok(Ok(p)) => p,
+                x => { fz.fail("prove", name, || format!("{} i={}", lv(), i), "Ok(path)", short(&x)); continue; }
+            };
+            let v = catch(AUS(|| MerkleTree::<H>::verify(root, i, &path)));
+            if !matches!(v, Ok(Ok(()))) || path[0] != leaves[i] || path.len() != d + 1 || fold_path::<H>(i, &path) != Some(want) {
+                fz.fail("prove/verify", name, || format!("{} i={} path={}", lv(), i, l_(&path, gd)), "Ok, leaf first, folds to naive root", short(&v));
+            }
+            // 3. batch openings
+            let idx = gen_list(r, n);
+            fz.evals += 1;
+            let p = match catch(AUS(|| tree.prove_batch(&idx))) {
+                Ok(Ok(p)) => p,
+                x => { fz.fail("prove_batch", name, || format!("{} idx={}", lv(), li(&idx)), "Ok(proof)", short(&x.map(|y| y.map(|_| ())))); continue; }
+            };
+            let o = Opening::<H>::of(root, n, &idx, &p);
+            let inp = || format!("{} {}", lv(), o.describe());
+            let vb = o.verify_batch();
+            if !matches!(vb, Ok(Ok(()))) { fz.fail("verify_batch-honest", name, inp, "Ok", short(&vb)); }
+            let gr = o.get_root();
+            if !matches!(&gr, Ok(Ok(x)) if *x == want) { fz.fail("get_root-honest", name, inp, &gd(&want), short(&gr)); }
+            if p.leaves.len() != idx.len() || idx.iter().zip(&p.leaves).any(|(&i, l)| *l != leaves[i]) || p.depth as usize != d {
+                fz.fail("prove_batch-leaves", name, inp, "proof.leaves[k] == leaves[idx[k]], depth == log2 n", "differs".into());
+            }
+            let singles: Vec<Vec<H::Digest>> = idx.iter().map(|&i| tree.prove(i).unwrap()).collect();
+            let ip = o.into_paths();
+            if !matches!(&ip, Ok(Ok(ps)) if *ps == singles) { fz.fail("into_paths-honest", name, inp, "the individual paths", short(&ip)); }
+            match catch(AUS(|| BatchMerkleProof::<H>::from_paths(&singles, &idx))) {
+                Ok(q) if q.leaves == p.leaves && q.nodes == p.nodes && q.depth == p.depth => {}
+                Ok(q) => fz.fail("from_paths-honest", name, inp, "the batch proof", Opening::<H>::of(root, n, &idx, &q).describe()),
+                Err(m) => fz.fail("from_paths-honest", name, inp, "the batch proof", format!("panic: {}", m)),
+            }
+            // 4. mutated openings must be rejected (acceptance only judged for collision-resistant hashers)
+            for _ in 0..2 {
+                fz.evals += 1;
+                let ms = batch_muts(&o, r);
+                let m = r.pick(&ms).clone();
+                let x = apply(&o, &m, r);
+                let inp = || format!("{} honest-idx={} mutation={:?} => {}", lv(), li(&idx), m, x.describe());
+                let what = match m { Mut::AddNode(_) => "surplus-node-accepted", Mut::LeavesExt => "surplus-leaf-accepted", _ => "mutated-batch-accepted" };
+                let oob = matches!(m, Mut::IdxTo(_, v) if v >= n) || matches!(m, Mut::AppendIdx(v) if v >= n);
+                let g = x.get_root();
+                match &g {
+                    Err(_) => fz.fail("panic-get_root", name, inp, "Err", short(&g)),
+                    Ok(Ok(_)) if oob => fz.fail("out-of-range-index-accepted", name, inp, "Err", short(&g)),
+                    Ok(Ok(y)) if real && *y == root => fz.fail(what, name, inp, "get_root: Err or another root", short(&g)),
+                    _ => {}
+                }
+                let g = x.verify_batch();
+                match &g {
+                    Err(_) => fz.fail("panic-verify_batch", name, inp, "Err", short(&g)),
+                    Ok(Ok(())) if real || oob => fz.fail(what, name, inp, "verify_batch: Err", short(&g)),
+                    _ => {}
+                }
+                let g = x.into_paths();
+                match &g {
+                    Err(_) => fz.fail("panic-into_paths", name, inp, "Err", short(&g)),
+                    Ok(Ok(_)) if oob => fz.fail("out-of-range-index-accepted", name, inp, "into_paths: Err", short(&g)),
+                    Ok(Ok(ps)) if real && ps.len() == x.idx.len() && ps.iter().zip(&x.idx).all(|(p, &i)| fold_path::<H>(i, p) == Some(root)) =>
+                        fz.fail(what, name, inp, "into_paths: Err or paths that do not resolve to the root", short(&g)),
+                    _ => {}
+                }
+            }
+            fz.evals += 1;
+            let ms = single_muts(n, i, path.len(), r);
+            let m = r.pick(&ms).clone();
+            let (rt, i2, p2) = apply_single::<H>(root, i, &path, &m, r);
+            let g = catch(AUS(|| MerkleTree::<H>::verify(rt, i2, &p2)));
+            let inp = || format!("{} i={} mutation={:?} => root={} index={:x} path={}", lv(), i, m, gd(&rt), i2, l_(&p2, gd));
+            match &g {
+                Err(_) => fz.fail("panic-verify", name, inp, "Err", short(&g)),
+                Ok(Ok(())) if real => fz.fail("mutated-path-accepted", name, inp, "Err", short(&g)),
+                _ => {}
+            }
+            // 5. garbage never panics
+            for _ in 0..2 {
+                fz.evals += 1;
+                let rd = |r: &mut Rng| H::hash(&r.bytes(4));
+                let depth = match r.below(10) { 0 => 0u8, 1 => 1, 2 => 2, 3 => 63, 4 => 64, 5 => 255, 6 => d as u8, _ => r.next_u64() as u8 };
+                let nidx = r.below(7) as usize;
+                let idx: Vec<usize> = (0..nidx).map(|_| match r.below(6) {
+                    0 | 1 => r.below(8) as usize,
+                    2 => (1usize.checked_shl(depth as u32).unwrap_or(0)).wrapping_sub(r.below(3) as usize),
+                    3 => usize::MAX - r.below(3) as usize,
+                    4 => (1usize << 63) + r.below(2) as usize,
+                    _ => r.next_u64() as usize >> r.below(64),
+                }).collect();
+                let x = Opening::<H> {
+                    root, n, idx, depth,
+                    leaves: (0..r.below(6)).map(|_| rd(r)).collect(),
+                    nodes: (0..r.below(6)).map(|_| (0..r.below(5)).map(|_| rd(r)).collect()).collect(),
+                };
+                let inp = || format!("garbage {}", x.describe());
+                let g = x.get_root(); if g.is_err() { fz.fail("panic-get_root", name, inp, "no panic", short(&g)); }
+                let g = x.verify_batch(); if g.is_err() { fz.fail("panic-verify_batch", name, inp, "no panic", short(&g)); }
+                let g = x.into_paths(); if g.is_err() { fz.fail("panic-into_paths", name, inp, "no panic", short(&g)); }
+                let pl = r.below(71) as usize;
+                let path: Vec<H::Digest> = (0..pl).map(|_| rd(r)).collect();
+                let i = match r.below(4) { 0 => r.below(8) as usize, 1 => usize::MAX, 2 => 1usize.checked_shl(pl as u32).unwrap_or(0).wrapping_sub(1 + r.below(2) as usize) >> 1, _ => r.next_u64() as usize >> r.below(64) };
+                let g = catch(AUS(|| MerkleTree::<H>::verify(root, i, &path)));
+                if g.is_err() { fz.fail("panic-verify", name, || format!("garbage index={:x} path={}", i, l_(&path, gd)), "no panic", short(&g)); }
+            }
+        }
+    }
+}
+
+fn falsify(seed: u64, n: usize) {
+    let r = &mut Rng::new(seed);
+    let fz = &mut Fz { evals: 0, fails: 0, suppressed: 0, seen: BTreeMap::new() };
+    // weights in 1/46ths: the Rescue hashers are ~20x slower
+    let share = |w: usize| (n * w / 46).max(12);
+    falsify_hasher::<Toy>("ToyHasher", false, share(10), r, fz);
+    falsify_hasher::<Blake3_256<f64::BaseElement>>("Blake3_256", true, share(13), r, fz);
+    falsify_hasher::<Blake3_192<f64::BaseElement>>("Blake3_192", true, share(10), r, fz);
+    falsify_hasher::<Sha3_256<f64::BaseElement>>("Sha3_256", true, share(10), r, fz);
+    falsify_hasher::<Rp64_256>("Rp64_256", true, share(1), r, fz);
+    falsify_hasher::<RpJive64_256>("RpJive64_256", true, share(1), r, fz);
+    falsify_hasher::<Rp62_248>("Rp62_248", true, share(1), r, fz);
+    if fz.suppressed > 0 { eprintln!("suppressed {} repeated failures (more than 5 per what/hasher)", fz.suppressed); }
+    println!("evaluations={} failures={}", fz.evals, fz.fails);
+}
+
 fn main() {
     silence_panics();
-    let leaves: Vec<ToyDigest> = (0..4u64).map(ToyDigest::from_u64).collect();
-    let t = MerkleTree::<H>::new(leaves.clone()).unwrap();
-    let root = *t.root();
-    let p = t.prove(2).unwrap();
-    println!("verify len1: {:?}", catch(|| MerkleTree::<H>::verify(root, 2, &p[..1])).map_err(|_| "panic"));
-    println!("verify len0: {:?}", catch(|| MerkleTree::<H>::verify(root, 2, &p[..0])).map_err(|_| "panic"));
-    println!("verify idx+4: {:?}", catch(|| MerkleTree::<H>::verify(root, 6, &p)).map_err(|_| "panic"));
-    println!("verify idx max: {:?}", catch(|| MerkleTree::<H>::verify(root, usize::MAX, &p)).map_err(|_| "panic"));
-    let long: Vec<ToyDigest> = (0..66u64).map(ToyDigest::from_u64).collect();
-    println!("verify len66: {:?}", catch(|| MerkleTree::<H>::verify(root, 2, &long)).map_err(|_| "panic"));
-    let bp = t.prove_batch(&[1, 2]).unwrap();
-    for depth in [0u8, 1, 2, 3, 63, 64, 200] {
-        let mut q = cl(&bp); q.depth = depth;
-        let q2 = cl(&q);
-        println!("depth {} get_root: {:?}  into_paths: {:?}", depth,
-            catch(move || q.get_root(&[1, 2])).map_err(|_| "panic"),
-            catch(move || q2.into_paths(&[1, 2]).map(|v| v.len())).map_err(|_| "panic"));
+    let args: Vec<String> = std::env::args().collect();
+    let mode = args.get(1).map(|s| s.as_str()).unwrap_or("");
+    let seed: u64 = args.get(2).and_then(|s| s.parse().ok()).unwrap_or(1);
+    let n: usize = args.get(3).and_then(|s| s.parse().ok()).unwrap_or(300);
+    match mode {
+        "corr" => corr(seed, n, args.get(4).map(|s| s == "thorough").unwrap_or(false)),
+        "falsify" => falsify(seed, n),
+        _ => { eprintln!("usage: c10 corr <seed> <n> [thorough] | c10 falsify <seed> <n>"); std::process::exit(2); }
     }
-    // deserialized with a hostile depth
-    let bytes = bp.serialize_nodes();
-    let mut r = SliceReader::new(&bytes);
-    let q = BatchMerkleProof::<H>::deserialize(&mut r, bp.leaves.clone(), 64).unwrap();
-    let q2 = cl(&q);
-    println!("deser depth64 get_root: {:?}", catch(move || q.get_root(&[1, 2])).map_err(|_| "panic"));
-    println!("deser depth64 verify_batch: {:?}", catch(move || MerkleTree::<H>::verify_batch(&root, &[1, 2], &q2)).map_err(|_| "panic"));
-    let q = cl(&bp);
-    println!("into_paths idx max: {:?}", catch(move || q.into_paths(&[usize::MAX, 2]).map(|v| v.len())).map_err(|_| "panic"));
-    let q = cl(&bp);
-    println!("get_root idx max: {:?}", catch(move || q.get_root(&[usize::MAX, 2])).map_err(|_| "panic"));
 }
